@@ -530,6 +530,10 @@ def make_geo(P):
     ev = []
     try:
         x, y = build(ia), build(ib)
+        if red != "none" and n >= 4 and n % 2 == 0:
+            # the reductions are over ALL batch items whatever the batch shape: a 2 x n/2 batch of the same items
+            x = pp.LieTensor(x.tensor().reshape(2, n // 2, -1), ltype=x.ltype)
+            y = pp.LieTensor(y.tensor().reshape(2, n // 2, -1), ltype=y.ltype)
         for (u, v, ra, rb) in ((x, y, ia, ib), (y, x, ib, ia)):      # both argument orders
             if P.get("module"):
                 out = pp.module.GeodesicLoss(reduction=red)(u, v)
